@@ -1,5 +1,5 @@
 Require Extraction.
 From Coq Require Import ExtrOcamlBasic.
-From Cloak Require Import Model.Copy.
+From Cloak Require Import Model.Copy Model.RelayPair.
 Extraction Blacklist List String Int.
-Extraction "../ocaml/gen/relay.ml" copy route_tcp_up read_from read_at_least1.
+Extraction "../ocaml/gen/relay.ml" copy route_tcp_up read_from read_at_least1 RelayPair.init RelayPair.run finished.
